@@ -111,8 +111,14 @@ def run(repo, tier):
             step = ai.lin(st, it.args[2])
             v = st.env.get(lv, Lin.atom(st.sver.get(lv, lv)))
             lo, hi = w
-            return [("window starts at the loop variable", lo - v), ("window starts at the loop variable'", v - lo),
-                    ("window width >= step (no example skipped)", (hi - lo) - step),
+            from ..affine import entails as _ent
+            # a window narrower than the step is fine when it ends at the end of X (explicit clamp instead of slice clipping)
+            wide = ("window width >= step (no example skipped)", (hi - lo) - step)
+            if not _ent(st.G, (hi - lo) - step):
+                N_ = ai.lin(st, ast.parse("X.shape[0]", mode="eval").body)
+                if N_ is not None and _ent(st.G, hi - N_):
+                    wide = ("a window narrower than the step reaches the end of X", hi - N_)
+            return [("window starts at the loop variable", lo - v), ("window starts at the loop variable'", v - lo), wide,
                     ("window width <= step (no example evaluated twice)", step - (hi - lo))]
         if not isinstance(n.slice, ast.Slice):
             out.append(violation("R-ARGWIN", fi, role, "X is indexed by `%s`, not by a contiguous window" % unparse(n.slice), n))
